@@ -187,18 +187,28 @@ bool matches_text_value(const Json& j, const mj::Value& e, bool ordered, std::st
 // ["dec", m, e]: the double nearest to the decimal m * 10^e (correctly rounded by strtod)
 inline double dec_value(const mj::Value& w) { std::string lit = std::to_string((long long)w[1].as_int()) + "e" + std::to_string((long long)w[2].as_int()); return strtod(lit.c_str(), nullptr); }
 inline mj::Value dbl_wire(double d) { mj::Value r = mj::Value::array(); uint64_t b; memcpy(&b, &d, 8); char buf[24]; snprintf(buf, sizeof buf, "%016llx", (unsigned long long)b); r.push("dbl"); r.push(buf); return r; }
+inline bool& parsed_mode() { static bool on = false; return on; }   // when on, build_doc returns the document as the PARSER builds it (dump + parse)
+template <class Json> Json build_doc_raw(const mj::Value& w);
 template <class Json>
 Json build_doc(const mj::Value& w) {
+    if (!parsed_mode()) return build_doc_raw<Json>(w);
+    Json b = build_doc_raw<Json>(w); std::string s; b.dump(s); return Json::parse(s);
+}
+template <class Json>
+Json build_doc_raw(const mj::Value& w) {
     const std::string& k = w[0].str();
     if (k == "null") return Json::null();
     if (k == "bool") return Json(w[1].as_bool());
     if (k == "int") return Json((int64_t)w[1].as_int());
     if (k == "dec") return Json(dec_value(w));
     if (k == "str") return Json(cps_to_utf8(w[1]));
-    if (k == "arr") { Json a(jsoncons::json_array_arg); for (auto& e : w[1].a) a.push_back(build_doc<Json>(e)); return a; }
-    if (k == "obj") { Json o(jsoncons::json_object_arg); for (auto& kv : w[1].a) o.insert_or_assign(cps_to_utf8(kv[0]), build_doc<Json>(kv[1])); return o; }
+    if (k == "arr") { Json a(jsoncons::json_array_arg); for (auto& e : w[1].a) a.push_back(build_doc_raw<Json>(e)); return a; }
+    if (k == "obj") { Json o(jsoncons::json_object_arg); for (auto& kv : w[1].a) o.insert_or_assign(cps_to_utf8(kv[0]), build_doc_raw<Json>(kv[1])); return o; }
     throw std::runtime_error("build_doc: unknown kind " + k);
 }
+// the same document obtained by PARSING its text (objects are then filled by the decoder's bulk path, not member by member)
+template <class Json>
+Json build_doc_parsed(const mj::Value& w) { Json b = build_doc_raw<Json>(w); std::string s; b.dump(s); return Json::parse(s); }
 inline bool key_less(const mj::Value& a, const mj::Value& b) {   // compare [keycps, v] pairs by key code points
     const auto& x = a[0].a; const auto& y = b[0].a;
     for (size_t i = 0; i < x.size() && i < y.size(); ++i) { if (x[i].i != y[i].i) return x[i].i < y[i].i; }
